@@ -53,7 +53,7 @@ TB_ARG = {("mod", "g"): "None", ("h1", "g"): "1", ("h2", "g"): "'s'", ("mod", "h
 
 
 def traceback_programs(tier):
-  edges = TB_EDGES[:6] if tier == "quick" else TB_EDGES
+  edges = TB_EDGES[:5] + TB_EDGES[7:] if tier == "quick" else TB_EDGES
   kinds = TB_KINDS[:2] if tier == "quick" else TB_KINDS
   out = []
   for kn, gtext in kinds:
@@ -83,7 +83,8 @@ def programs(tier):
   # definition-rich programs (PS-def)
   dps = defspace.programs("quick" if tier == "quick" else "thorough")
   if tier == "quick":
-    dps = [(i, s2) for i, s2 in dps if i.startswith("alone:") or i.startswith(("flow:outside<-", "flow:initattr<-", "flow:union2<-"))]
+    dps = [(i, s2) for i, s2 in dps if i.startswith("alone:") or
+           (i.startswith(("flow:outside<-", "flow:initattr<-", "flow:union2<-")) and i.rsplit("#", 1)[1] in "012")]
   out += dps
   ps = progspace.programs("smoke")
   if tier == "quick":
@@ -210,6 +211,9 @@ class _Filler:
 
 
 _KEEP = []
+SMALL = 1500   # characters
+REPS = 2      # analyses in a row (different hole patterns) of a small program inside a chain; thorough: 3
+_SLOTTED = [type("_S%d" % n, (), {"__slots__": tuple("f%d" % j for j in range(n))}) for n in range(0, 63)]
 _STRIDE = {"fresh-fwd": 2, "reuse-rev": 3, "reuse-rot": 5, "fresh-rev": 7, "fresh-rot": 4, "reuse-fwd": 6}
 
 
@@ -223,13 +227,16 @@ def _punch_holes(stride, k):
   """
   del _KEEP[:]
   objs = []
-  for i in range(600 + 37 * (k % 7)):
+  for i in range(200 + 37 * (k % 7)):
     f = _Filler()
     f.a = i
     objs.append(f)
     objs.append({"k": i})
     objs.append([i, f])
     objs.append((i, f, None))
+    # one object of every small size class (16 .. 512 bytes): instances with 0..62 slots
+    for cls in _SLOTTED[(i % 3)::3]:
+      objs.append(cls())
   for i, o in enumerate(objs):
     if i % stride:
       _KEEP.append(o)
@@ -244,16 +251,21 @@ def _chain_job(job):
   stride = _STRIDE.get(name.split("#")[0])
   if mode == "cold":
     for i, src in chunk:
-      out[i] = vrun.isolated(_one, (src, None, opts))
+      out[i] = [vrun.isolated(_one, (src, None, opts))]
     return name, out
   loader = None
   if mode == "reuse":
     from pytype import load_pytd
     loader = load_pytd.create_loader(opts)
   for k, (i, src) in enumerate(chunk):
-    if stride:
-      _punch_holes(stride, k)
-    out[i] = _one((src, loader, opts))
+    # small programs are analysed three times in a row under different hole patterns (each a transition)
+    reps = REPS if len(src) < SMALL else 1
+    rs = []
+    for rep in range(reps):
+      if stride:
+        _punch_holes(stride, 3 * k + rep)
+      rs.append(_one((src, loader, opts)))
+    out[i] = rs
   return name, out
 
 
@@ -267,7 +279,9 @@ def jobs_for(tier, hashseed, progs):
 
 def child_main(argv):
   """Entry point of the per-seed interpreter: vk.checks.c04 --child tier out.json"""
+  global REPS
   tier, outp = argv
+  REPS = 2 if tier == "quick" else 3
   boot.load()
   from pytype import io, load_pytd  # import only; nothing analysed in this process
   from pytype.imports import pickle_utils
@@ -282,7 +296,7 @@ def child_main(argv):
   nprocs = int(os.environ.get("VERIF_C04_PROCS", "5"))
   res = {}
   for job, (name, out) in vrun.pmap(_chain_job, jobs, procs=min(len(jobs), nprocs), chunksize=1, maxtasks=1, shuffle=False):
-    res.setdefault(name.split("#")[0], {}).update({i: dict(r, job=name) for i, r in out.items()})
+    res.setdefault(name.split("#")[0], {}).update({i: [dict(r, job=name, rep=n) for n, r in enumerate(rs)] for i, rs in out.items()})
   with open(outp, "w") as f:
     json.dump(res, f)
 
@@ -329,13 +343,13 @@ def compare(data, progs):
       for conf, out in confs.items():
         if i not in out:
           continue   # thinned configuration (cold stride)
-        transitions += 1
-        r = out[i]
-        seen.setdefault(r["d"], []).append((int(s), r["job"], r))
-        if not r["sorted"] or not r["unique"]:
-          viol.append((vrun.sha(i + "order"), "errors not %s (seed=%s, %s)" % (
-              "sorted" if not r["sorted"] else "unique", s, conf),
-                       {"pid": i, "src": src, "kind": "order", "configs": [[int(s), r["job"]]]}))
+        for r in out[i]:
+          transitions += 1
+          seen.setdefault(r["d"], []).append((int(s), r["job"], r))
+          if not r["sorted"] or not r["unique"]:
+            viol.append((vrun.sha(i + "order"), "errors not %s (seed=%s, %s)" % (
+                "sorted" if not r["sorted"] else "unique", s, conf),
+                         {"pid": i, "src": src, "kind": "order", "configs": [[int(s), r["job"]]]}))
     states += len(seen)
     if len(seen) > 1:
       groups = sorted(seen.values(), key=lambda g: (-len(g), g[0][:2]))
@@ -369,7 +383,7 @@ def run(rep, tier, seed):
                                        ("tb:", "pserr:", "c02:", "alone:", "flow:", "pair:")}})
   rep.evaluations = transitions
   s0 = data[seeds[0]]
-  rep.nontrivial_extra = sum(1 for i, _ in progs if any(o.get(i, {}).get("nerr") for o in s0.values()))
+  rep.nontrivial_extra = sum(1 for i, _ in progs if any(r.get("nerr") for o in s0.values() for r in o.get(i, [])))
   rep.outcome("programs-with-one-output", sum(1 for _ in progs) - len([1 for k, _, c in viol if c["kind"] == "diff"]))
   rep.outcome("analyses", transitions)
   rep.outcome("programs-with-errors", rep.nontrivial_extra)
